@@ -827,5 +827,124 @@ def holdsObs (bs : Bytes) (o : Obs) : Option String :=
     | none => none
     | some a => advCheck a bs o
 
+/-! ### Time: the header read is bounded as a whole (`Conn.readHeaderContext`, `readHeaderTimeout > 0`)
+
+  `t0 := time.Now()` when the first caller enters, `ctx = context.WithTimeout(ctx, readHeaderTimeout)`
+  unless the caller's own context ends sooner, `ReadHeader(c.Conn)` in a goroutine of its own, then
+  `select { case <-ctx.Done(): c.Conn.Close(); headerErr = "… timeout" ; case r := <-resCh: … }`.
+  So there is ONE deadline, `t0 + readHeaderTimeout` (or the caller's), fixed when the read starts; how
+  many `Read`s `ReadHeader` issues on the socket and how long each of them waits does not enter.
+
+  The peer is a list of arrivals (`Arr`: the next bytes and the time at which they reach the socket, on
+  any fixed clock); after the last arrival it stays silent with the connection open.  The reader's
+  clock `now` only moves forward: bytes that arrived earlier are read at once.  What the reader makes of
+  the bytes it has been handed so far is `readHeader` on them: the error class `short` = it is still
+  blocked in a read (`verdict = none`), anything else is its final answer, reached at the arrival
+  time of the last byte it needed.
+
+  `Deadline.perRead` is not the code: it is the variant in which the deadline is re-armed before
+  every read on the socket (an idle timeout).  It is here to be refuted (`c08_timed_per_read_refuted`)
+  and to name that behaviour when the implementation shows it. -/
+
+/-- the peer's next bytes and the time at which they reach the socket -/
+structure Arr where
+  time : Nat
+  data : Bytes
+  deriving DecidableEq, Repr
+
+/-- how the deadline of the header read is kept -/
+inductive Deadline where
+  | total      -- fixed once: start + timeout (the code)
+  | perRead    -- re-armed before every read: (time of the read) + timeout
+  deriving DecidableEq, Repr
+
+/-- result of the timed header read -/
+inductive TRes where
+  | accepted (h : Header) (rest : Bytes)   -- `rest`: bytes handed to the reader beyond the header
+  | refused (e : Err)                      -- complete but refused header, or no signature
+  | timedOut                               -- "proxy protocol header read timeout", connection closed
+  | crashed
+  deriving DecidableEq, Repr
+
+/-- …and the time at which `readHeaderContext` returned it -/
+structure TDone where
+  res : TRes
+  time : Nat
+  deriving DecidableEq, Repr
+
+/-- all bytes of a list of arrivals -/
+def bytesOf : List Arr → Bytes
+  | [] => []
+  | a :: as => a.data ++ bytesOf as
+
+/-- what the reader makes of the bytes handed to it so far: `none` = still blocked in a read -/
+def verdict (got : Bytes) : Option TRes :=
+  match readHeader got with
+  | .ok (h, rest) => some (.accepted h rest)
+  | .panic => some .crashed
+  | .err e => if e.cls = .short then none else some (.refused e)
+
+/-- a decision with further bytes in the socket: the same decision, a longer unread rest -/
+def TRes.more (x : Bytes) : TRes → TRes
+  | .accepted h rest => .accepted h (rest ++ x)
+  | r => r
+
+/-- the deadline after a read that returned at time `t` -/
+def Deadline.next (pol : Deadline) (timeout dl t : Nat) : Nat :=
+  match pol with
+  | .total => dl
+  | .perRead => t + timeout
+
+/-- The reader at time `now` (≤ `dl`) holding `got`, the peer still to deliver `sched`. -/
+def timedLoop (pol : Deadline) (timeout : Nat) : List Arr → Nat → Nat → Bytes → TDone
+  | [], now, dl, got =>
+    match verdict got with
+    | some r => ⟨r, now⟩
+    | none => ⟨.timedOut, dl⟩                 -- silent peer: cut off at the deadline
+  | a :: as, now, dl, got =>
+    match verdict got with
+    | some r => ⟨r, now⟩
+    | none =>
+      let t := max now a.time                 -- the blocked read returns when the bytes arrive
+      if t ≤ dl then timedLoop pol timeout as t (pol.next timeout dl t) (got ++ a.data)
+      else ⟨.timedOut, dl⟩
+
+/-- the latest arrival among `used`, not before `now`: when the reader has been handed all of them -/
+def lastTime (now : Nat) : List Arr → Nat
+  | [] => now
+  | a :: as => lastTime (max now a.time) as
+
+/-- the deadline fixed when the read starts: `start + timeout`, or the end of the caller's context
+    (`HeaderContext(ctx)`: its deadline or the moment it is cancelled) when that comes first -/
+def deadlineAt (timeout start : Nat) (limit : Option Nat) : Nat :=
+  match limit with
+  | some l => min (start + timeout) l
+  | none => start + timeout
+
+/-- `readHeaderContext` entered for the first time at `start` (`limit` = end of the caller's context) -/
+def readTimed (pol : Deadline) (timeout start : Nat) (limit : Option Nat) (sched : List Arr) : TDone :=
+  if deadlineAt timeout start limit < start then ⟨.timedOut, start⟩     -- context already over
+  else timedLoop pol timeout sched start (deadlineAt timeout start limit) []
+
+/-- `Conn` with its clock: `start` = `t0` of the one execution of `readHeaderContext`'s slow path
+    (`none` until the first caller enters).  Later callers wait on `headerMu` and then find
+    `isHeaderRead`: they neither restart the read nor move the deadline. -/
+structure TConn where
+  timeout : Nat
+  start : Option Nat := none
+  deriving DecidableEq, Repr
+
+/-- a caller (Read, Write, RemoteAddr, LocalAddr, Header) enters at time `t` -/
+def TConn.enter (c : TConn) (t : Nat) : TConn :=
+  match c.start with
+  | some _ => c
+  | none => { c with start := some t }
+
+def TConn.deadline (c : TConn) : Option Nat := c.start.map (· + c.timeout)
+
+/-- what every caller of the connection is answered from, callers entering at `calls` (in order) -/
+def TConn.outcome (c : TConn) (calls : List Nat) (sched : List Arr) : Option TDone :=
+  (calls.foldl TConn.enter c).start.map fun t0 => readTimed .total c.timeout t0 none sched
+
 end C08
 end FwdVerif
